@@ -23,7 +23,7 @@ PROBES = ["header_straddles_chunk", "offset_0", "block_cut_by_eof", "key_00", "d
           "xorencoded_B_mod4_nonzero", "all_keys_fallback_used", "custom_key_list", "expect_valueerror",
           "two_blocks_same_key", "block_in_stub_raw_view_only", "raw_stub_block_under_higher_priority_key", "from_path", "from_file_nonzero_cursor", "tiny_chunk", "container_pe",
           "container_xorpe", "near_miss_filler", "block_in_last_7_bytes", "defaults_left_out_of_the_call",
-          "allkeys_history"]
+          "allkeys_history", "pe_number_of_rva_not_16", "stub_at_search_range_limit"]
 RULE = ("seeded plans: container in {raw, PE .data, XorEncoded PE} x 0-3 config blocks (settings lists of 1-40 records, "
         "XOR key any of 0x00-0xff) at offsets biased to 0, 1, m*B-7..m*B+1, EOF-4096, EOF-len, EOF-7 x filler kind "
         "(zeros, 0xff, random, key byte, text, near-miss headers) x call (from_bytes/from_file/from_path, default or "
@@ -125,6 +125,11 @@ def generate(rng, tier, index):
               "text": rng.choice([16, 512, 1500]), "seed": rng.getrandbits(16),
               "prepend": rng.choice([0, 0, 0, 1, 5, rng.randint(0, 200)]),
               "append": hx(bytes(rng.getrandbits(8) for _ in range(rng.choice([0, 0, 8]))))}
+        if rng.random() < 0.15:
+            # NumberOfRvaAndSizes other than 16 (legal; 0 = no data directories at all, then there is no export directory)
+            pe["nrva"] = rng.choice([0, 0, 1, 2, 15])
+            if pe["nrva"] == 0:
+                pe["export"] = None
         base = pe_data_offset(pe)
     nblocks = rng.choice([0, 1, 1, 1, 1, 2, 2, 3])
     blocks = []
@@ -176,12 +181,15 @@ def generate(rng, tier, index):
     if pe:
         plan["pe"] = pe
     if container == "xorpe":
-        n = rng.choice([0, 20, 300, rng.randint(0, 800)])
+        variant = rng.choice(["both", "both", "size", "marker"])
+        # documented search range (first 1024 bytes): the size relation is tried at offsets 0..1023, the end-of-stub marker
+        # has to lie entirely before offset 1024; stubs right up to those limits are in the domain (same limits as C09)
+        lim = {"size": 1023, "marker": 1021, "both": 1020}[variant]
+        n = rng.choice([0, 20, 300, rng.randint(0, 800), rng.randint(0, 800), lim, rng.randint(lim - 8, lim)])
         stub = bytearray(builder.prng_bytes(rng.getrandbits(20), n))
         for i, b in enumerate(stub):
             if b == 0xFF:
                 stub[i] = 0xFE
-        variant = rng.choice(["both", "both", "size", "marker"])
         stub_block = None
         if rng.random() < 0.4:
             # a (tiny) configuration block inside the *stub*, i.e. visible in the raw view only: the decoded view has to be
@@ -191,7 +199,7 @@ def generate(rng, tier, index):
                                                        [3, "int", rng.getrandbits(32)]], pad_to=None), k)
             at = rng.randint(0, len(stub))
             cand = bytes(stub[:at]) + sb + bytes(stub[at:])
-            if b"\xff\xff\xff" not in cand and b"\xff\xff" != cand[-2:] and cand[-1:] != b"\xff":
+            if len(cand) <= lim and b"\xff\xff\xff" not in cand and b"\xff\xff" != cand[-2:] and cand[-1:] != b"\xff":
                 stub = bytearray(cand)
                 stub_block = {"key": k, "at": at}
         plan["xor"] = {"nonce": hx(bytes(rng.getrandbits(8) for _ in range(4))),
@@ -347,6 +355,10 @@ def execute(plan: dict) -> Result:
     if c != "raw":
         res.probes["container_" + c] += 1
         res.nontrivial = True
+    if c != "raw" and plan["pe"].get("nrva", 16) != 16:
+        res.probes["pe_number_of_rva_not_16"] += 1
+    if c == "xorpe" and len(plan["xor"]["stub"]) // 2 >= 1017:
+        res.probes["stub_at_search_range_limit"] += 1
     if call["entry"] == "from_path":
         res.probes["from_path"] += 1
     if call["entry"] == "from_file" and call["initial_pos"]:
